@@ -450,21 +450,31 @@ where
         use ReceiverStatus::*;
 
         loop {
-            let cancellation_status = match self.canceled_requests_pin_mut().poll_recv(cx) {
-                Poll::Ready(Some(request_id)) => {
-                    if let Some(span) = self.in_flight_requests_mut().remove_request(request_id) {
-                        let _entered = span.enter();
-                        tracing::info!("ResponseCancelled");
+            // Process every queued cancellation before looking at the transport: a request read
+            // below returns immediately, and a limiter that counts the requests in flight would
+            // otherwise still see requests the application has already given up.
+            let mut any_cancelled = false;
+            let cancellation_status = loop {
+                match self.canceled_requests_pin_mut().poll_recv(cx) {
+                    Poll::Ready(Some(request_id)) => {
+                        if let Some(span) =
+                            self.in_flight_requests_mut().remove_request(request_id)
+                        {
+                            let _entered = span.enter();
+                            tracing::info!("ResponseCancelled");
+                        }
+                        any_cancelled = true;
                     }
-                    Ready
+                    // Pending cancellations don't block Channel closure, because all they do is
+                    // ensure the Channel's internal state is cleaned up. But Channel closure also
+                    // cleans up the Channel state, so there's no reason to wait on a cancellation
+                    // before closing.
+                    //
+                    // Ready(None) can't happen, since `self` holds a Cancellation.
+                    Poll::Pending | Poll::Ready(None) => {
+                        break if any_cancelled { Ready } else { Closed };
+                    }
                 }
-                // Pending cancellations don't block Channel closure, because all they do is ensure
-                // the Channel's internal state is cleaned up. But Channel closure also cleans up
-                // the Channel state, so there's no reason to wait on a cancellation before
-                // closing.
-                //
-                // Ready(None) can't happen, since `self` holds a Cancellation.
-                Poll::Pending | Poll::Ready(None) => Closed,
             };
 
             // Expire everything that is due before looking at the transport: a request read below
